@@ -112,6 +112,15 @@ type originAnalysis struct {
 	inProgress map[types.Object]bool
 	// returnSummaries: also include constants/fields that flow into the result of called module functions
 	returnSummaries bool
+	// fieldCells: one abstract cell per struct field — a field read also yields the origins of every value written to
+	// that field anywhere in the analysed packages
+	fieldCells bool
+	// fieldCellFilter restricts which fields are expanded (nil = all)
+	fieldCellFilter func(f *types.Var) bool
+	summaryDepth    int
+	summaryBusy     map[*types.Func]bool
+	fieldCache      map[*types.Var]map[string]bool
+	fieldBusy       map[*types.Var]bool
 }
 
 func newOriginAnalysis(r *Run, cg *CallGraph, sanitizers ...string) *originAnalysis {
@@ -158,6 +167,11 @@ func (oa *originAnalysis) originsOfExpr(p *packages.Package, fd *ast.FuncDecl, e
 		if s := info.Selections[x]; s != nil && s.Kind() == types.FieldVal {
 			out["field:"+namedName(s.Recv())+"."+s.Obj().Name()] = true
 			add(oa.originsOfExpr(p, fd, x.X, depth+1))
+			if oa.fieldCells {
+				if fv, ok := s.Obj().(*types.Var); ok && (oa.fieldCellFilter == nil || oa.fieldCellFilter(fv.Origin())) {
+					add(oa.originsOfField(fv.Origin(), depth+1))
+				}
+			}
 		} else if s == nil {
 			// package-qualified identifier
 			add(oa.originsOfExpr(p, fd, x.Sel, depth+1))
@@ -179,26 +193,39 @@ func (oa *originAnalysis) originsOfExpr(p *packages.Package, fd *ast.FuncDecl, e
 		if full != "" {
 			out["call:"+full] = true
 		}
-		for _, a := range x.Args {
-			add(oa.originsOfExpr(p, fd, a, depth+1))
+		summarised := false
+		if fn != nil && oa.returnSummaries {
+			if cd := oa.cg.Decl[fn.Origin()]; cd != nil && cd.Body != nil && oa.summaryDepth < 4 && !oa.summaryBusy[fn.Origin()] {
+				summarised = true // the callee's own return expressions decide what flows out (parameters resolve to call-site arguments)
+			}
+		}
+		if !summarised {
+			for _, a := range x.Args {
+				add(oa.originsOfExpr(p, fd, a, depth+1))
+			}
 		}
 		// return summary of module functions: constants and fields that flow into the first result
 		if fn != nil && oa.returnSummaries {
-			if cd := oa.cg.Decl[fn.Origin()]; cd != nil && cd.Body != nil && depth < 8 {
+			if cd := oa.cg.Decl[fn.Origin()]; cd != nil && cd.Body != nil && oa.summaryDepth < 4 && !oa.summaryBusy[fn.Origin()] {
 				cp := oa.cg.PkgOf[fn.Origin()]
+				if oa.summaryBusy == nil {
+					oa.summaryBusy = map[*types.Func]bool{}
+				}
+				oa.summaryBusy[fn.Origin()] = true
+				oa.summaryDepth++
 				ast.Inspect(cd.Body, func(n ast.Node) bool {
 					if _, isLit := n.(*ast.FuncLit); isLit {
 						return false
 					}
 					if rs, ok := n.(*ast.ReturnStmt); ok && len(rs.Results) >= 1 {
-						for k, v := range oa.originsOfExpr(cp, cd, rs.Results[0], depth+4) {
-							if strings.HasPrefix(k, "const:") || strings.HasPrefix(k, "field:") {
-								out[k] = v
-							}
+						for k, v := range oa.originsOfExpr(cp, cd, rs.Results[0], 1) {
+							out[k] = v
 						}
 					}
 					return true
 				})
+				oa.summaryDepth--
+				delete(oa.summaryBusy, fn.Origin())
 			}
 		}
 		if sel, ok := ast.Unparen(x.Fun).(*ast.SelectorExpr); ok {
@@ -351,4 +378,60 @@ func hasTagPrefix(m map[string]bool, prefix string) (string, bool) {
 		}
 	}
 	return "", false
+}
+
+// originsOfField: union of the origins of all values stored into the field (composite-literal keys and assignments)
+// in the packages of the call graph.
+func (oa *originAnalysis) originsOfField(field *types.Var, depth int) map[string]bool {
+	if oa.fieldCache == nil {
+		oa.fieldCache = map[*types.Var]map[string]bool{}
+		oa.fieldBusy = map[*types.Var]bool{}
+	}
+	if m, ok := oa.fieldCache[field]; ok {
+		return m
+	}
+	out := map[string]bool{}
+	if oa.fieldBusy[field] || depth > 10 || field.Pkg() == nil || !strings.HasPrefix(field.Pkg().Path(), modPath) {
+		return out
+	}
+	oa.fieldBusy[field] = true
+	defer delete(oa.fieldBusy, field)
+	seenPkg := map[*packages.Package]bool{}
+	for fn, fd := range oa.cg.Decl {
+		p := oa.cg.PkgOf[fn]
+		_ = seenPkg
+		if fd.Body == nil {
+			continue
+		}
+		info := p.TypesInfo
+		ast.Inspect(fd.Body, func(n ast.Node) bool {
+			switch x := n.(type) {
+			case *ast.KeyValueExpr:
+				if k, ok := x.Key.(*ast.Ident); ok {
+					if v, ok := info.Uses[k].(*types.Var); ok && v.Origin() == field {
+						for k2 := range oa.originsOfExpr(p, fd, x.Value, depth+1) {
+							out[k2] = true
+						}
+					}
+				}
+			case *ast.AssignStmt:
+				if len(x.Lhs) == len(x.Rhs) {
+					for i, l := range x.Lhs {
+						if sel, ok := ast.Unparen(l).(*ast.SelectorExpr); ok {
+							if s := info.Selections[sel]; s != nil {
+								if v, ok := s.Obj().(*types.Var); ok && v.Origin() == field {
+									for k2 := range oa.originsOfExpr(p, fd, x.Rhs[i], depth+1) {
+										out[k2] = true
+									}
+								}
+							}
+						}
+					}
+				}
+			}
+			return true
+		})
+	}
+	oa.fieldCache[field] = out
+	return out
 }
